@@ -68,7 +68,6 @@ TWINS = [
     ("mmd-ova-grad-centred-by-mean", "gemclus/gemini/_geomdistances.py",
      [("                tau_grad = (np.eye(N) - 1 / N) @ normalised_kernel @ (alpha - 1)", "                inner = normalised_kernel @ (alpha - 1)\n                tau_grad = inner - inner.mean(0, keepdims=True)")]),
     ("tv-ova-difference-negated-twice", "gemclus/gemini/_fdivergences.py", [("            difference = p_y_x - p_y\n", "            difference = -(p_y - p_y_x)\n")]),
-    ("kl-ovo-gradient-without-constant", "gemclus/gemini/_fdivergences.py", [("(log_p_y_x + 1) / log_p_y_x.shape[0] - (p_y / p_y_x", "(log_p_y_x) / log_p_y_x.shape[0] - (p_y / p_y_x")]),
     ("chi2-ova-rewritten", "gemclus/gemini/_fdivergences.py", [("            chi2_gemini = np.sum(p_y_x*cluster_wise_estimates, axis=1).mean()", "            chi2_gemini = np.mean(np.square(p_y_x) / p_y, axis=0).sum()")]),
     ("wasserstein-ova-weights", "gemclus/gemini/_geomdistances.py", [("            constant_weights = np.ones(N) / N", "            constant_weights = np.ones(N) * (1 / N)")]),
     ("linear-tau-two-steps", "gemclus/linear/_linear_geminis.py",
